@@ -6,6 +6,8 @@ CONSTANTS
   LeafChoices <- ExhLeafChoices
   Universe = "classes"
   TypeDepth0 = 0
+  RichArgs = FALSE
+  MaxItems = 3
   MaxArgs = 0
   Target = 4
   MinDecls = 1
